@@ -1,6 +1,6 @@
 ----------------------------- MODULE Routing_gen -----------------------------
 (* Case generation and design-level check for C01.                                            *)
-(* One state = one case: a rule instance and a condition tree.  TLC enumerates               *)
+(* One "case" state = one case: a rule instance and a condition tree.  TLC enumerates         *)
 (*   "rules"   one descriptor per rule instance (tables, slices, literal universe, placement) *)
 (*   "leaves"  every leaf of the full leaf set, bare and under NOT            (depth 1, 2)    *)
 (*   "pairs"   every AND / OR of two leaves of the pair leaf set              (depth 2)       *)
@@ -14,8 +14,8 @@ CONSTANTS Rules,     \* sequence of rule instances
           Sample,    \* set of <<shape, r1, r2, r3, r4>> (shape name, four naturals)
           EmitCases  \* TRUE: print CASE lines
 
-VARIABLES ri, sh, src, ix
-vars == <<ri, sh, src, ix>>
+VARIABLES ri, stage, sh, src, ix
+vars == <<ri, stage, sh, src, ix>>
 
 CRules == [i \in DOMAIN Rules |-> Compile(Rules[i])]
 LeafTab == [i \in DOMAIN Rules |-> SetToSeq(FullLeaves(CRules[i]))]
@@ -63,44 +63,60 @@ Tree ==
        [] sh = "A(O(L,L),A(L,L))" -> And(Or(a, b), And(c, d))
        [] sh = "O(O(L,L),A(L,L))" -> Or(Or(a, b), And(c, d))
 
-Init ==
-  /\ ri \in DOMAIN Rules
+(* Enumeration in up to two steps so that TLC's workers share the work: a root state per rule  *)
+(* instance, for "pairs" an intermediate state per left leaf, then the case states.            *)
+Init == /\ ri \in DOMAIN Rules
+        /\ stage = "root" /\ sh = "-" /\ src = "full" /\ ix = <<>>
+
+FromRoot ==
+  /\ stage = "root"
+  /\ ri' = ri
   /\ \/ /\ "rules" \in Modes
-        /\ sh = "RULE" /\ src = "full" /\ ix = <<>>
+        /\ stage' = "case" /\ sh' = "RULE" /\ src' = "full" /\ ix' = <<>>
      \/ /\ "leaves" \in Modes
-        /\ sh \in {"L", "N(L)"} /\ src = "full"
-        /\ ix \in {<<i>> : i \in 1..Len(LeafTab[ri])}
+        /\ stage' = "case" /\ sh' \in {"L", "N(L)"} /\ src' = "full"
+        /\ ix' \in {<<i>> : i \in 1..Len(LeafTab[ri])}
      \/ /\ "pairs" \in Modes
-        /\ sh \in {"A(L,L)", "O(L,L)"} /\ src = "pair"
-        /\ ix \in {<<i, j>> : i \in 1..Len(PairTab[ri]), j \in 1..Len(PairTab[ri])}
+        /\ stage' = "mid" /\ sh' = "-" /\ src' = "pair"
+        /\ ix' \in {<<i>> : i \in 1..Len(PairTab[ri])}
      \/ /\ "sample" \in Modes
-        /\ src = "full"
+        /\ stage' = "case" /\ src' = "full"
         /\ \E s \in Sample :
              /\ s[1] \in Shapes
-             /\ sh = s[1]
-             /\ ix = [j \in 1..Arity(s[1]) |-> (s[j + 1] % Len(LeafTab[ri])) + 1]
+             /\ sh' = s[1]
+             /\ ix' = [j \in 1..Arity(s[1]) |-> (s[j + 1] % Len(LeafTab[ri])) + 1]
 
-Next == UNCHANGED vars
+FromMid ==
+  /\ stage = "mid"
+  /\ ri' = ri /\ src' = src
+  /\ stage' = "case"
+  /\ sh' \in {"A(L,L)", "O(L,L)"}
+  /\ ix' \in {<<ix[1], j>> : j \in 1..Len(PairTab[ri])}
+
+Next == FromRoot \/ FromMid
 Spec == Init /\ [][Next]_vars
+
+IsCase == stage = "case" /\ sh # "RULE"
 
 R == CRules[ri]
 
 TypeOK == /\ ri \in DOMAIN Rules
-          /\ sh \in Shapes \cup {"RULE"}
+          /\ stage \in {"root", "mid", "case"}
+          /\ sh \in Shapes \cup {"RULE", "-"}
           /\ src \in {"full", "pair"}
-          /\ sh # "RULE" => Len(ix) = Arity(sh)
+          /\ IsCase => Len(ix) = Arity(sh)
 
 (* ---- design-level properties (checked by TLC on every enumerated case) ---- *)
 (* the pruning algebra with the two repairs never drops a must-table *)
-RepairedPruneSound == sh # "RULE" => PruneSound(R, Tree, TRUE)
+RepairedPruneSound == IsCase => PruneSound(R, Tree, TRUE)
 (* the pruning algebra as written; expected to FAIL for range and calendar rules (candidates) *)
-CodePruneSound == sh # "RULE" => PruneSound(R, Tree, FALSE)
+CodePruneSound == IsCase => PruneSound(R, Tree, FALSE)
 (* the planner never invents tables, and must-tables are tables *)
-RoutedWithinTables == sh # "RULE" => /\ RoutedI(R, Tree, FALSE).set \subseteq Tables(R)
+RoutedWithinTables == IsCase => /\ RoutedI(R, Tree, FALSE).set \subseteq Tables(R)
                                     /\ MustRoute(R, Tree) \subseteq Tables(R)
 (* a point condition is routed exactly to the key's own table *)
 PointQueryIsPlace ==
-  (sh = "L" /\ Tree.k = "cmp" /\ Tree.col = "k" /\ Tree.op = "=" /\ Tree.w = "lit" /\ Tree.a >= 0) =>
+  (IsCase /\ sh = "L" /\ Tree.k = "cmp" /\ Tree.col = "k" /\ Tree.op = "=" /\ Tree.w = "lit" /\ Tree.a >= 0) =>
      LET x == RoutedI(R, Tree, FALSE) IN
      IF Place(R, Tree.a) # NoTable THEN ~x.rej /\ x.set = {Place(R, Tree.a)} /\ MustRoute(R, Tree) = {Place(R, Tree.a)}
      ELSE MustRoute(R, Tree) = {}
@@ -120,5 +136,5 @@ CondRec ==
       dsound |-> (p.rej \/ MustRoute(R, t) \subseteq p.set),
       leafmust |-> [j \in DOMAIN lv |-> MustRoute(R, lv[j])]]
 
-Emit == EmitCases => PrintT(<<"CASE", ToJson(IF sh = "RULE" THEN RuleRec ELSE CondRec)>>)
+Emit == (EmitCases /\ stage = "case") => PrintT(<<"CASE", ToJson(IF sh = "RULE" THEN RuleRec ELSE CondRec)>>)
 =============================================================================
